@@ -42,9 +42,7 @@ def fix_first_edge(ms, nodes, allow_empty):
     ambiguity (a str/tuple first element with non-str companions is read as another format)."""
     if ms and isinstance(ms[0], (str, tuple)) and not all(isinstance(x, str) for x in ms):
         ms = [x for x in ms if isinstance(x, str)]
-    if not ms and not allow_empty:
-        ms = [nodes[0]]
-    return ms
+    return ms   # an empty first edge is a plain edge (since the fix recorded under C10)
 
 def has_unhashable_attr(H):
     return any(isinstance(v, (set, list, dict)) for e in H.edges for v in H.edges[e].values())
